@@ -312,8 +312,19 @@ def gen_random(rnd, plain_data=False):
             return ''                    # null reverse-path
         return (rnd.choice(UTF8_SENDERS) if rnd.random() < 0.08 else 's%d@x.test') % t
 
+    tx_addrs = []                        # recipients named so far in the current transaction
+
     def rcpt(n):
-        return (rnd.choice(UTF8_RCPTS) if rnd.random() < 0.08 else 'r%d@x.test') % n
+        if tx_addrs and rnd.random() < 0.15:
+            # the same recipient named again (one owed end-of-data reply per RCPT answered 2xx, RFC 2033),
+            # sometimes differing in case only
+            a = rnd.choice(tx_addrs)
+            if rnd.random() < 0.3:
+                a = a.upper() if a != a.upper() and rnd.random() < 0.5 else a.split('@')[0].upper() + '@' + a.split('@')[1]
+        else:
+            a = (rnd.choice(UTF8_RCPTS) if rnd.random() < 0.08 else 'r%d@x.test') % n
+        tx_addrs.append(a)
+        return a
 
     def cls(weights):
         if rnd.random() < 0.01:
@@ -388,6 +399,7 @@ def gen_random(rnd, plain_data=False):
         ops.append(op('mail', '250' if state['mail_ok'] else cls((70, 4, 13, 13)), nl(), arg=sender(t), esc=e(),
                       **mailkw()))
         state['mail_ok'] = False
+        del tx_addrs[:]
         for i in range(rnd.choice((0, 1, 1, 2, 2, 3, 4))):
             ops.append(op('rcpt', cls((55, 5, 20, 20)), nl(), arg=rcpt(nr), esc=e()))
             nr += 1
@@ -593,6 +605,45 @@ def gen_lmtp_rset(seed):
                 yield {'kind': 'lmtprset', 'lmtp': True, 'ops': ops, 'rs': seed}
 
 
+DUP_PATTERNS = [
+    [('a@x.test', '250'), ('a@x.test', '250')],
+    [('a@x.test', '250'), ('a@x.test', '251'), ('a@x.test', '250')],
+    [('a@x.test', '250'), ('a@x.test', '550')],
+    [('a@x.test', '550'), ('a@x.test', '250')],
+    [('a@x.test', '452'), ('a@x.test', '250'), ('a@x.test', '250')],
+    [('a@x.test', '250'), ('A@x.test', '250')],
+    [('a@x.test', '250'), ('a@X.TEST', '250'), ('A@X.TEST', '550')],
+    [('a@x.test', '250'), ('b@x.test', '250'), ('a@x.test', '250')],
+    [('b@x.test', '550'), ('a@x.test', '250'), ('b@x.test', '250'), ('a@x.test', '250')],
+]
+
+
+def gen_lmtp_duplicates(seed):
+    """LMTP: the same recipient named in several RCPTs of one transaction (accepted each time / accepted and
+    refused in either order / differing in case only): one end-of-data reply per RCPT answered 2xx, in RCPT
+    order; then a second transaction that repeats a recipient of the first."""
+    for pi, pat in enumerate(DUP_PATTERNS):
+        for adv in (True, False):
+            for empty in (False, True):
+                for lmtp in (True, False):
+                    nls = [1 + (i + pi) % 3 for i in range(20)]
+                    ops = [op('banner', '220', nls[0]),
+                           op('lhlo' if lmtp else 'ehlo', '250', nls[1], arg='me.test', adv=adv),
+                           op('mail', '250', nls[2], arg='s0@x.test')]
+                    ops += [op('rcpt', c, nls[3 + j], arg=a) for j, (a, c) in enumerate(pat)]
+                    ops += [op('data', '354', nls[8]),
+                            op('send_empty_data' if empty else 'send_data', '250', nls[9], arg=pi % 4,
+                               codes=['250', '452', '550', '251']),
+                            op('mail', '250', nls[10], arg='s1@x.test'),
+                            op('rcpt', '250', nls[11], arg=pat[0][0]),
+                            op('rcpt', '250', nls[12], arg='c@x.test'),
+                            op('data', '354', nls[13]),
+                            op('send_data' if empty else 'send_empty_data', '250', nls[14], arg=1,
+                               codes=['251', '250']),
+                            op('quit', '221', nls[15])]
+                    yield {'kind': 'lmtpdup', 'lmtp': lmtp, 'ops': ops, 'rs': seed}
+
+
 def gen_concurrent_random(rnd):
     n = rnd.choice((2, 2, 3))
     return {'kind': 'conc', 'convs': [gen_random(rnd) for _ in range(n)],
@@ -602,7 +653,8 @@ def gen_concurrent_random(rnd):
 
 def gen_cases(tier, seed, shard, nshards):
     n = 0
-    for case in itertools.chain(gen_lmtp_rset(seed), gen_faults_designed(seed), gen_cuts(seed),
+    for case in itertools.chain(gen_lmtp_rset(seed), gen_lmtp_duplicates(seed), gen_faults_designed(seed),
+                                gen_cuts(seed),
                                 gen_concurrent_designed(seed),
                                 gen_utf8(seed), gen_mailparams(seed), gen_exhaustive(seed)):
         if n % nshards == shard:
@@ -776,6 +828,8 @@ def build_plan(case):
             accepted, unreset = [], []
         elif name == 'rcpt':
             if code[0] == '2':
+                if lmtp and o['arg'].lower() in [a.lower() for a in accepted]:
+                    flags.add('lmtp-recipient-accepted-more-than-once')
                 accepted.append(o['arg'])
                 unreset.append(o['arg'])
             else:
